@@ -55,6 +55,13 @@ type c04Op struct {
 	DataOld []wire.Record   `json:"data_old,omitempty"`
 	Other   int             `json:"other,omitempty"`
 	DataOth []wire.Record   `json:"data_oth,omitempty"`
+	// overrun (ipfix): a malformed message in which a record of a variable-length template claims N octets although
+	// its set has only A left; the octets it runs over form, by the message's own set framing, a data set of a
+	// never-announced template whose body happens to hold a complete template set (Tpl) redefining Slot's id. Whether
+	// a collector drops such a message or skips by set lengths, it never takes a template from a place where only a
+	// reader that has lost the set boundaries finds one: data for Slot (Recs) decodes as before
+	N int `json:"n,omitempty"`
+	A int `json:"a,omitempty"`
 }
 
 type c04MixedSet struct {
@@ -78,7 +85,7 @@ type c04Case struct {
 
 const c04Rule = "case = protocol (ipfix | nf9) + 2..6 (exporter address, template id) slots (IPv4 4-byte, IPv4-mapped, IPv6; ids shared across exporters; adversarial pairs that collide on the cache's " +
 	"full 32-bit FNV-1 hash, share a shard, or share a shard and have the same text when address and id are written without separator; found by searching ~1.5M keys) + 2..30 operations: announce (alone or with data in the same message), re-announce with a different definition " +
-	"(same record length with other elements, same elements with other field lengths, a fresh template, or fields of length zero: then data naming the id must yield nothing), field-less template records ([id,0] and [2,0], alone or with re-announcements behind them in the same set: a re-announced id has the new definition, an id the record does not concern is untouched, the named id decodes as before or yields nothing plus an error), drawn export times, data under the model's current template, data for a never-announced slot, peer Get (ipfix), and messages mixing data sets and (re-)announcements of several ids of one exporter in any order, in a quarter of them with 1..80 data sets of never-announced templates in front of some of the sets; " +
+	"(same record length with other elements, same elements with other field lengths, a fresh template, or fields of length zero: then data naming the id must yield nothing), field-less template records ([id,0] and [2,0], alone or with re-announcements behind them in the same set: a re-announced id has the new definition, an id the record does not concern is untouched, the named id decodes as before or yields nothing plus an error), drawn export times, malformed messages in which a variable-length record runs past the end of its set over octets that would read as a template set (ipfix: the slot keeps the template announced last), data under the model's current template, data for a never-announced slot, peer Get (ipfix), and messages mixing data sets and (re-)announcements of several ids of one exporter in any order, in a quarter of them with 1..80 data sets of never-announced templates in front of some of the sets; " +
 	"invariant after every step = decode equals the reference expectation under the model's template for exactly that slot, unannounced slots give an 'unknown template' error and no records, peer Get returns the model's template or 'not available'; " +
 	"non-trivial = a re-announcement followed by data, or >= 2 exporters using one id with different definitions, or a colliding pair in use; distinct by hash"
 
@@ -430,6 +437,11 @@ func genC04(t *rapid.T, proto string, env *wire.GenEnv, opts ...string) c04Case 
 			}
 			addJunk(t, &op)
 			c.Ops = append(c.Ops, op)
+		case proto == "ipfix" && cur != nil && cur.MinRecordLen() > 0 && !tolerant[slot] && rapid.IntRange(0, 11).Draw(t, "overrun") == 0:
+			hidden := env.GenTemplate(t, c.Slots[slot].ID)
+			ds := env.GenDataSet(t, cur, 3)
+			a := rapid.IntRange(0, 3).Draw(t, "overruna")
+			c.Ops = append(c.Ops, c04Op{Op: "overrun", Slot: slot, Tpl: &hidden, Recs: ds.Recs, Pad: ds.Pad, A: a, N: a + 4 + rapid.IntRange(0, 40).Draw(t, "overrunf")})
 		case cur == nil && kind <= 1:
 			c.Ops = append(c.Ops, c04Op{Op: "unknown", Slot: slot})
 		case kind == 9 && proto == "ipfix":
@@ -783,6 +795,83 @@ func runC04x(c *c04Case) (v verdict, sig string, err error, cache *flowCache, mo
 			if d := wire.CompareRecords(res.Recs, want); d != "" {
 				return v, "wrong-template", step("a data set was not decoded with the template most recently announced (earlier in the same message or before): %s", d), cache, model
 			}
+		case "overrun":
+			tp := model[op.Slot]
+			if c.Proto != "ipfix" || tp == nil || op.Tpl == nil || op.Tpl.ID != sl.ID || op.A < 0 || op.A > 3 || op.N < op.A+4 || op.N > 254 {
+				return v, "", fmt.Errorf("bad case: overrun at step %d", i), cache, model
+			}
+			// two ids this exporter does not use
+			free := func(from uint16) uint16 {
+				id := from
+				for clash := true; clash; {
+					clash = false
+					for _, o := range c.Slots {
+						if o.ID == id {
+							clash, id = true, id+1
+						}
+					}
+				}
+				return id
+			}
+			varID := free(61000)
+			unkID := free(varID + 1)
+			vt := wire.Template{ID: varID, Fields: []wire.Field{{ID: 82, Len: wire.VarLen, Type: wire.TString}}}
+			am := hdr()
+			am.Sets = []wire.Set{{Kind: "tpl", Tpls: []wire.Template{vt}}}
+			if res, perr := cache.decodeFlow(addr, am.Bytes()); perr != nil || res.Nil || res.Err != nil {
+				return v, "announce-rejected", step("announcing a template with one variable-length field failed: %v %v", perr, res.Err), cache, model
+			}
+			// the hidden template set, serialised by the builder (a message of its own, header stripped)
+			hk := "tpl"
+			if op.Tpl.Options {
+				hk = "opt"
+			}
+			hm := wire.Msg{Proto: "ipfix", Sets: []wire.Set{{Kind: hk, Tpls: []wire.Template{*op.Tpl}}}}
+			hidden := hm.Bytes()[16:]
+			f := op.N - op.A - 4
+			var body []byte
+			// set 1: data of the variable-length template, declared length 4+1+A; its one record claims N octets
+			body = append(body, byte(varID>>8), byte(varID), 0, byte(4+1+op.A), byte(op.N))
+			for k := 0; k < op.A; k++ {
+				body = append(body, 'x')
+			}
+			// set 2 by the message's framing: never-announced template, body = f filler octets + the hidden template set
+			l2 := 4 + f + len(hidden)
+			body = append(body, byte(unkID>>8), byte(unkID), byte(l2>>8), byte(l2))
+			for k := 0; k < f; k++ {
+				body = append(body, 'y')
+			}
+			body = append(body, hidden...)
+			mm := hdr()
+			total := 16 + len(body)
+			raw := []byte{0, 10, byte(total >> 8), byte(total), byte(mm.Time >> 24), byte(mm.Time >> 16), byte(mm.Time >> 8), byte(mm.Time),
+				byte(mm.Seq >> 24), byte(mm.Seq >> 16), byte(mm.Seq >> 8), byte(mm.Seq), byte(mm.Domain >> 24), byte(mm.Domain >> 16), byte(mm.Domain >> 8), byte(mm.Domain)}
+			raw = append(raw, body...)
+			if _, perr := cache.decodeFlow(addr, raw); perr != nil {
+				return v, "panic", step("%v", perr), cache, model
+			}
+			// whatever became of that message: the slot's template is the one its exporter announced last
+			dm := hdr()
+			dm.Sets = append(dm.Sets, wire.Set{Kind: "data", Tpl: tp, Recs: op.Recs, Pad: op.Pad})
+			if len(dm.Bytes()) > 65507 {
+				v.label(true, "history-cut-at-oversize-message")
+				return v, "", nil, cache, model
+			}
+			res, perr := cache.decodeFlow(addr, dm.Bytes())
+			if perr != nil {
+				return v, "panic", step("%v", perr), cache, model
+			}
+			var want []wire.ExpRecord
+			for r := range op.Recs {
+				want = append(want, wire.ExpectRecord(tp, &op.Recs[r]))
+			}
+			if res.Nil || res.Err != nil {
+				return v, "overrun-template", step("after a malformed message (a record running %d octets past the end of its set), data under the template announced last fails: nil=%v err=%v", op.N-op.A, res.Nil, res.Err), cache, model
+			}
+			if d := wire.CompareRecords(res.Recs, want); d != "" {
+				return v, "overrun-template", step("after a malformed message (a record running %d octets past the end of its set, over octets that read as a template set from where a reader that lost the set boundary stands), the slot's data is no longer decoded with the template its exporter announced last: %s", op.N-op.A, d), cache, model
+			}
+			v.label(true, "record-running-past-the-end-of-its-set")
 		case "data":
 			tp := model[op.Slot]
 			if tp == nil {
